@@ -41,7 +41,7 @@ is_ipv4 (const char *start, const char *end)
             }
         }
         else if (ch == '.') {
-            if (in_byte == 0 || cp[1] == 0) {
+            if (in_byte == 0 || cp + 1 == end || cp[1] == 0) {
                 /* misplaced dot */
                 return (NO);
             }
@@ -76,20 +76,8 @@ is_ipv6 (const char *start, const char *end)
     int     len = 0;
 
 
-    for ( ; cp < (unsigned char *) end; ) {
+    for ( ; cp < (unsigned char *) end && *cp != 0; ) {
         switch (*cp) {
-        case 0:
-            /* Terminate the loop. */
-            if (field < 2) {
-                /* too few `:' in IPv6 address*/
-                return (NO);
-            }
-            else if (len == 0 && null_field != field - 1) {
-                /* bad null last field in IPv6 address */
-                return (NO);
-            }
-            else
-                return (YES);
         case '.':
             /* Terminate the loop. */
             if (field < 2 || field > 6) {
@@ -112,7 +100,7 @@ is_ipv6 (const char *start, const char *end)
             }
             cp++;
             len = 0;
-            if (*cp == ':') {
+            if (cp < (unsigned char *) end && *cp == ':') {
                 if (null_field > 0) {
                     /* too many `::' in IPv6 address */
                     return (NO);
@@ -123,6 +111,8 @@ is_ipv6 (const char *start, const char *end)
         default: {
             /* Advance by at least 1 character position or terminate. */
             len = strspn ((char *) cp, "0123456789abcdefABCDEF");
+            if (len > (unsigned char *) end - cp)
+                len = (unsigned char *) end - cp;
             if (len /* - strspn((char *) cp, "0") */ > 4) {
                 /* malformed IPv6 address */
                 return (NO);
@@ -136,6 +126,16 @@ is_ipv6 (const char *start, const char *end)
         } /* switch */
     } /* for (;;) */
 
+    /* Terminate the loop: the string is delimited by `end', not by null. */
+    if (field < 2) {
+        /* too few `:' in IPv6 address*/
+        return (NO);
+    }
+    else if (len == 0 && null_field != field - 1) {
+        /* bad null last field in IPv6 address */
+        return (NO);
+    }
+
     return (YES);
 }
 
@@ -147,7 +147,7 @@ is_ipaddr (const char *start, const char *end)
     printf ("!!! %.*s\n", end - start, start);
 #endif
 
-    if (strchr(start, ':') != NULL)
+    if (memchr(start, ':', end - start) != NULL)
         return is_ipv6 (start, end);
     else
         return is_ipv4 (start, end);
